@@ -5,6 +5,7 @@ import (
 	"strings"
 
 	"verifharness/internal/fw"
+	"verifharness/internal/gen"
 	"verifharness/internal/val"
 )
 
@@ -43,6 +44,9 @@ func snapCheck(c *fw.Case, before val.Snapshot, doc map[string]any, what string,
 	return true
 }
 
+// c11Row is a row type an application may declare for itself.
+type c11Row map[string]any
+
 func c11Plain(c *fw.Case) {
 	d := newRichDoc(c)
 	f := richForms[c.Idx%len(richForms)]
@@ -72,6 +76,16 @@ func c11Plain(c *fw.Case) {
 	}
 	armFault(0, faultNone)
 	doc := d.fresh()
+	if c.Idx%20 == 7 || c.Chance(0.06) {
+		// a document built by Go code: rows of map types of their own among the rows
+		doc["t3"] = []any{map[string]string{"a": "x", "s1": "p"}, map[string]any{"a": 2.0, "s1": "q"}, c11Row{"a": 1.0, "s1": "p"}, map[string]float64{"a": 1.5}, nil, map[string]any{"a": "x"}}
+		sql = gen.Pick(c.R, []string{"SELECT * FROM t3", "SELECT a, s1 FROM t3 x WHERE a IS NOT NULL", "SELECT COUNT(*) AS n FROM t3", "SELECT x.rid, (SELECT COUNT(*) FROM `<-t3`) AS n FROM t1 x",
+			"SELECT * FROM t1 x JOIN t3 y ON x.s1 = y.s1", "SELECT a FROM t3 UNION SELECT s1 FROM t1", "SELECT DISTINCT a FROM t3 ORDER BY a"})
+		if wrapped {
+			sql = wrapSQL(sql)
+		}
+		feats = append(feats, "rows.foreign-map-types")
+	}
 	before := val.Snap(doc)
 	out := Run(doc, sql, o.Options()...)
 	waitBackground()
